@@ -1297,7 +1297,12 @@ func (c *Ctx) pathSignature(p *Path, sub func(Term) (Term, bool), first types.Ob
 	for _, st := range p.Steps {
 		switch st.Kind {
 		case "cond":
-			sb.WriteString("if[" + boolStr(st.Cond.Truth) + "] " + key(canon(st.Cond.T)) + "; ")
+			ct, truth := st.Cond.T, st.Cond.Truth
+			if b, ok := ct.(TBin); ok && b.Op == token.LEQ && intLike(b.X) && intLike(b.Y) {
+				// over integers `x <= y` is `!(y < x)`: one spelling for a bounds test and its negation
+				ct, truth = TBin{token.LSS, b.Y, b.X}, !truth
+			}
+			sb.WriteString("if[" + boolStr(truth) + "] " + key(canon(ct)) + "; ")
 		case "store":
 			sb.WriteString("store " + key(canon(st.LHS)) + " = " + key(canon(st.RHS)) + "; ")
 		case "call":
